@@ -1243,7 +1243,115 @@ pub fn worker_ucisample(prop: &str, shard: usize, _nshards: usize, seed: u64, ti
             out.add("uci_silent_sessions", 1);
         }
         out.end();
+        if prop == "C07" {
+            for k in 0..4 {
+                c07_bulk_session(out, &corpus, &mut rng, &format!("C07-bulk/{seed}/{shard}/{i}/{k}"));
+            }
+        }
     }
+}
+
+/// C07 through the binary with the commands of a whole exchange written in one piece (a script,
+/// or a GUI that does not wait): `position A; go ...; stop; position B; go depth 2`. The k-th
+/// `bestmove` must be legal in the k-th position - a stopped search answers for the position it
+/// was asked about, whatever has been sent since.
+fn c07_bulk_session(out: &mut Out, corpus: &[String], rng: &mut Rng, name: &str) {
+    let pick = |rng: &mut Rng, want_white: Option<bool>| -> Option<(Root, Pos)> {
+        for _ in 0..40 {
+            let maxp = *rng.pick(&[6usize, 10, 16]);
+            let r = random_root(corpus, rng, maxp);
+            let Some(p) = r.shadow() else { continue };
+            if p.legal_moves().is_empty() || want_white.map(|w| w != p.white_to_move).unwrap_or(false) {
+                continue;
+            }
+            return Some((r, p));
+        }
+        None
+    };
+    let Some((ra, pa)) = pick(rng, None) else { return };
+    let Some((rb, pb)) = pick(rng, Some(!pa.white_to_move)) else { return };
+    let go = rng.pick(&["go infinite", "go depth 6", "go depth 30", "go movetime 40", "go wtime 60000 btime 60000 winc 1000 binc 1000"]).to_string();
+    let text = format!("{}\n{go}\nstop\n{}\ngo depth 2\n", Cmd::Position(ra.clone()).text(), Cmd::Position(rb.clone()).text());
+    let case = json!({"kind":"bulk-session","scenario":name,"written_in_one_piece":text});
+    out.begin(&case);
+    let Ok(mut s) = Session::spawn(&engine_bin(false), &[], &[], None) else {
+        out.inconclusive("cannot start the engine");
+        out.end();
+        return;
+    };
+    s.send_bulk(&text);
+    let mut best: Vec<String> = vec![];
+    let dl = Instant::now() + Duration::from_secs(20);
+    while best.len() < 2 && Instant::now() < dl {
+        match s.next(dl.saturating_duration_since(Instant::now())) {
+            Some(ev) if ev.kind == Kind::Out => {
+                if let Some(r) = ev.text.strip_prefix("bestmove ") {
+                    best.push(r.split_ascii_whitespace().next().unwrap_or("").to_string());
+                }
+            }
+            Some(ev) if ev.kind == Kind::OutEof => break,
+            _ => {}
+        }
+    }
+    out.add("bulk_sessions", 1);
+    for (k, (bm, (root, p))) in best.iter().zip([(&ra, &pa), (&rb, &pb)]).enumerate() {
+        out.add("bulk_bestmoves_judged", 1);
+        if p.find_uci(bm).is_none() {
+            out.viol("C07", &format!("C07|bulk|{name}|{k}"),
+                &format!("[{name}] commands written in one piece ({go}; stop; next position; go depth 2): bestmove #{} is {bm}, which is not a legal move of the position that search was asked about ({})", k + 1, fen::render4(p)),
+                json!({"kind":"bulk-session","scenario":name,"written_in_one_piece":text,"root":root.json(),"transcript_tail":s.transcript().iter().rev().take(16).rev().collect::<Vec<_>>()}));
+        }
+    }
+    if best.len() < 2 {
+        out.add("bulk_sessions_incomplete", 1);
+        out.note(&format!("bulk session {name}: {} bestmove(s) within 20 s", best.len()));
+    }
+    s.send("quit");
+    let _ = s.wait_exit(Duration::from_secs(5));
+    out.end();
+}
+
+pub fn replay_c07_bulk(case: &Value, out: &mut Out) {
+    let text = case["written_in_one_piece"].as_str().unwrap_or("").to_string();
+    let mut roots: Vec<Root> = vec![];
+    for l in text.lines() {
+        if let Some(rest) = l.strip_prefix("position ") {
+            let (head, moves) = match rest.split_once(" moves") {
+                Some((h, m)) => (h, m.split_ascii_whitespace().map(|x| x.to_string()).collect()),
+                None => (rest, vec![]),
+            };
+            let fen = if head.trim() == "startpos" { gen::START_FEN.to_string() } else { head.trim().trim_start_matches("fen ").to_string() };
+            roots.push(Root { fen, moves });
+        }
+    }
+    let Ok(mut s) = Session::spawn(&engine_bin(false), &[], &[], None) else { return };
+    s.send_bulk(&text);
+    let mut best: Vec<String> = vec![];
+    let dl = Instant::now() + Duration::from_secs(20);
+    while best.len() < roots.len() && Instant::now() < dl {
+        match s.next(dl.saturating_duration_since(Instant::now())) {
+            Some(ev) if ev.kind == Kind::Out => {
+                if let Some(r) = ev.text.strip_prefix("bestmove ") {
+                    best.push(r.split_ascii_whitespace().next().unwrap_or("").to_string());
+                }
+            }
+            Some(ev) if ev.kind == Kind::OutEof => break,
+            _ => {}
+        }
+    }
+    for l in s.transcript() {
+        println!("{l}");
+    }
+    for (k, (bm, root)) in best.iter().zip(roots.iter()).enumerate() {
+        let Some(p) = root.shadow() else { continue };
+        let ok = p.find_uci(bm).is_some();
+        println!("bestmove #{}: {bm} in {}: {}", k + 1, fen::render4(&p), if ok { "legal" } else { "NOT LEGAL" });
+        if !ok {
+            out.viol("C07", "replay", &format!("bestmove #{} is {bm}, not legal in {}", k + 1, fen::render4(&p)), case.clone());
+        }
+    }
+    s.send("quit");
+    let _ = s.wait_exit(Duration::from_secs(5));
 }
 
 pub fn replay_ucisample(prop: &str, case: &Value, out: &mut Out) {
@@ -1753,6 +1861,45 @@ pub fn worker_c08uci(shard: usize, _nshards: usize, seed: u64, tier: &str, out: 
         }
         for (code, msg) in &res.silences {
             out.viol("C08", &format!("C08|uci-{code}|{name}"), &format!("[{name}] {msg}"), json!({"kind":"session","scenario":name,"script":script.json()}));
+        }
+        out.end();
+    }
+    // a table that has just been reset (once or several times), then roots the search answers
+    // without expanding anything: no legal move, a single reply - and ordinary ones
+    for i in 0..(if tier == "thorough" { 40 } else { 4 }) {
+        let mut cmds = vec![];
+        for _ in 0..6 {
+            let fam = if rng.chance(1, 2) { gen::Family::Kxk(o::QUEEN) } else { gen::Family::Kxk(o::ROOK) };
+            let want = rng.below(3); // 0 = no legal move, 1 = single reply, 2 = any
+            let mut tries = 0;
+            let p = loop {
+                tries += 1;
+                let Some(p) = gen::family_nth(fam, rng.next() % gen::family_size(fam)) else { continue };
+                let n = p.legal_moves().len();
+                if (want == 0 && n == 0) || (want == 1 && n == 1) || want == 2 || tries > 5000 {
+                    break p;
+                }
+            };
+            for _ in 0..rng.below(3) {
+                cmds.push(Cmd::NewGame);
+            }
+            cmds.push(Cmd::Position(Root { fen: fen::render6(&p, 0, 1), moves: vec![] }));
+            cmds.push(Cmd::GoDepth(1 + rng.below(5) as u8));
+            cmds.push(Cmd::Await);
+        }
+        cmds.push(Cmd::IsReady);
+        cmds.push(Cmd::Quit);
+        let script = Script { cmds, delays: vec![], checked_build: i % 2 == 1 };
+        let name = format!("C08-uci-reset/{seed}/{shard}/{i}");
+        out.begin(&json!({"kind":"session","scenario":name,"script":script.json()}));
+        let res = run_script(&script, &format!("c08r-{shard}-{i}"), Duration::from_secs(30));
+        out.add("uci_sessions", 1);
+        out.add("uci_gos_after_a_table_reset", res.gos.len() as u64);
+        for (code, msg) in res.faults.iter().filter(|f| matches!(f.0.as_str(), "panic" | "died" | "exit-status" | "missing-bestmove")) {
+            out.viol("C08", &format!("C08|uci-{code}|{name}"), &format!("[{name}] {msg}"), json!({"kind":"session","scenario":name,"script":script.json(),"transcript_tail":res.transcript.iter().rev().take(12).rev().collect::<Vec<_>>()}));
+        }
+        for (code, msg) in &res.silences {
+            out.viol("C08", &format!("C08|uci-{code}|{name}"), &format!("[{name}] {msg} (a depth-limited go must end by itself)"), json!({"kind":"session","scenario":name,"script":script.json()}));
         }
         out.end();
     }
